@@ -14,6 +14,7 @@ open PubModel.C01
 #print axioms upstream_side_prefix
 #print axioms gen_side_chunk_pos
 #print axioms gen_tunnel_read_checked
+#print axioms gen_join_private_buffers
 #print axioms sideWrite_gen
 #print axioms upstream_legacy_prefix
 #print axioms downstream_legacy_prefix
